@@ -9,6 +9,7 @@ GROUPS = [
          functions=['fiber_barrier_wait'], defs=['-DBCOUNT=%d' % c], timeout=600, bounded=True, bound='count = %d (all 2^64 arrival numbers)' % c,
          thorough_only=(c in COUNTS_THOROUGH)) for c in COUNTS_QUICK + COUNTS_THOROUGH
 ] + [
+    dict(name='init', tu='barrier.c', harness='h_init', mode='H', functions=['fiber_barrier_init'], unwind=3, exact_unwind=True),
     dict(name='lemmas', tu='lemmas.c', kind='lemmas', harness='', no_native='pure lemma'),
 ]
 ASSUMPTIONS = [
